@@ -1,4 +1,254 @@
-//! placeholder (filled below)
+//! The three REAL triggers of iceoryx2-cal (semaphore, unix_datagram_socket, socket_pair),
+//! driven sequentially through the cal trigger traits (HandlerInterface / WaiterInterface) and
+//! compared with the abstract trigger of the step model: a token counter where
+//!   R1 a fresh trigger has no token (a wait would block / times out),
+//!   R2 after a successful post a wait returns promptly,
+//!   R3 after k posts at most k waits succeed (no phantom token),
+//!   R4 empty_buffer never blocks and leaves at most what was there (how much it leaves is the
+//!      trigger policy parameter of the theorems -- reported as NOTE),
+//!   R5 a full buffer is reported as BufferIsFull, tokens stay available,
+//!   R6 try_wait on an empty trigger returns at once.
+//! Plus (`sem` mode) the lost wake-up on the real semaphore trigger inside the real
+//! event::common, with a long timed_wait as the observable.
+use core::mem::MaybeUninit;
+use core::time::Duration;
+use iceoryx2_bb_container::semantic_string::SemanticString;
+use iceoryx2_bb_lock_free::mpmc::bit_set::RelocatableBitSet;
+use iceoryx2_bb_system_types::file_name::FileName;
+use iceoryx2_bb_system_types::path::Path;
+use iceoryx2_cal::dynamic_storage;
+use iceoryx2_cal::event::trigger::semaphore::{SemaphoreHandle, SemaphoreMgmt, SemaphoreWaiter};
+use iceoryx2_cal::event::trigger::socket_pair::{SocketPairHandle, SocketPairMgmt, SocketPairWaiter};
+use iceoryx2_cal::event::trigger::unix_datagram_socket::{UnixDatagramHandle, UnixDatagramWaiter};
+use iceoryx2_cal::event::trigger::{Configuration as TrigCfg, HandlerInterface, State, WaiterInterface};
+use iceoryx2_cal::event::NotifierNotifyError;
 use std::io::Write;
-pub fn trig_mode(_out: &mut impl Write) {}
-pub fn sem_mode(_ms: u64, _out: &mut impl Write) {}
+use std::time::Instant;
+
+type E = RelocatableBitSet;
+type PS<M> = dynamic_storage::process_local::Storage<State<E, M>>;
+
+const PROBE_MS: u64 = 80;
+
+struct Ops<'a> {
+    post: Box<dyn Fn() -> Result<(), NotifierNotifyError> + 'a>,
+    try_wait: Box<dyn Fn() -> bool + 'a>,
+    timed: Box<dyn Fn(Duration) -> bool + 'a>,
+    empty: Box<dyn Fn() -> bool + 'a>,
+}
+
+/// true = a token was there (the timed wait returned clearly before its timeout)
+fn probe(o: &Ops) -> bool {
+    let t = Instant::now();
+    let ok = (o.timed)(Duration::from_millis(PROBE_MS));
+    ok && t.elapsed() < Duration::from_millis(PROBE_MS / 2)
+}
+fn count_probes(o: &Ops, max: usize) -> usize { let mut n = 0; while n < max && probe(o) { n += 1; } n }
+
+fn scenarios(name: &str, o: &Ops, overflow_limit: usize, out: &mut impl Write) {
+    let outc = std::cell::RefCell::new(out);
+    let line = |sc: &str, obs: String, ok: bool| { let _ = writeln!(outc.borrow_mut(), "T {} {} {} {}", name, sc, obs.replace(' ', "_"), if ok { "ok" } else { "FAIL" }); };
+    // R1 / R6
+    let t = Instant::now(); let r = (o.try_wait)(); let fast = t.elapsed() < Duration::from_millis(PROBE_MS / 2);
+    line("R6-try_wait-on-empty-returns", format!("returned={} fast={}", r, fast), r && fast);
+    let p = probe(o);
+    line("R1-fresh-has-no-token", format!("token={}", p), !p);
+    // R2
+    let r = (o.post)(); let p1 = probe(o); let p2 = probe(o);
+    line("R2-post-then-wait-returns", format!("post={:?} first_wait_token={} second_wait_token={}", r, p1, p2), r.is_ok() && p1 && !p2);
+    // R3: k posts, one try_wait, then count
+    for k in [1usize, 3, 5] {
+        for _ in 0..k { let _ = (o.post)(); }
+        let _ = (o.try_wait)();
+        let left = count_probes(o, 40);
+        line(&format!("R3-{}posts-try_wait-then-probes", k), format!("successful_probes={}", left), left <= k - 1);
+        if k == 5 { let _ = writeln!(outc.borrow_mut(), "NOTE real trigger {}: after {} posts and one try_wait, {} further wait(s) succeed (wait policy: {})", name, k, left,
+            if left == 0 { "takes all tokens" } else if left == k - 1 { "takes one token" } else { "takes some tokens" }); }
+    }
+    // R4: k posts, empty_buffer, then count
+    for k in [1usize, 3, 5] {
+        for _ in 0..k { let _ = (o.post)(); }
+        let t = Instant::now(); let r = (o.empty)(); let fast = t.elapsed() < Duration::from_millis(PROBE_MS / 2);
+        let left = count_probes(o, 40);
+        line(&format!("R4-{}posts-empty_buffer-then-probes", k), format!("returned={} fast={} successful_probes={}", r, fast, left), r && fast && left <= k);
+        if left > 0 && k == 5 {
+            let _ = writeln!(outc.borrow_mut(), "NOTE real trigger {}: empty_buffer after {} posts leaves tokens ({} further wait(s) succeed): it does not empty the buffer (spurious wake-ups, not lost ones; covered by the trigger-policy parameter of the theorems)", name, k, left);
+        }
+        // make sure we restart from empty
+        for _ in 0..8 { let _ = (o.empty)(); }
+        let _ = count_probes(o, 40);
+    }
+    // R5: overflow
+    let mut posted = 0usize; let mut full = false;
+    while posted < overflow_limit { match (o.post)() { Ok(()) => posted += 1, Err(NotifierNotifyError::BufferIsFull) => { full = true; break; } Err(_) => break } }
+    if full {
+        let again = (o.post)();
+        let p = probe(o);
+        line("R5-overflow", format!("capacity={} post_when_full={:?} wait_after_full_token={}", posted, again, p), again == Err(NotifierNotifyError::BufferIsFull) && p);
+    } else {
+        let p = probe(o);
+        line("R5-overflow", format!("no_BufferIsFull_within={} wait_token={}", posted, p), posted == overflow_limit && p);
+    }
+    for _ in 0..(posted / 1 + 8).min(200000) { if !probe(o) { break; } }
+}
+
+fn cfg(tag: &str) -> (FileName, TrigCfg) {
+    let name = FileName::new(format!("c05trig_{}_{}", tag, std::process::id()).as_bytes()).unwrap();
+    let c = TrigCfg { suffix: FileName::new(b".trg").unwrap(), prefix: FileName::new(b"verif_").unwrap(), path_hint: Path::new(b"/tmp/").unwrap() };
+    (name, c)
+}
+
+pub fn trig_mode(out: &mut impl Write) {
+    // semaphore
+    {
+        type W = SemaphoreWaiter<E, PS<SemaphoreMgmt>>; type H = SemaphoreHandle<E, PS<SemaphoreMgmt>>;
+        let (name, c) = cfg("sem");
+        let mut mgmt: Box<MaybeUninit<SemaphoreMgmt>> = Box::new(MaybeUninit::uninit());
+        match <W as WaiterInterface<E, SemaphoreMgmt, PS<SemaphoreMgmt>>>::create(&name, &c, &mut mgmt) {
+            Ok(w) => {
+                let h = <H as HandlerInterface<E, SemaphoreMgmt, PS<SemaphoreMgmt>>>::open(&name, &c, unsafe { mgmt.assume_init_ref() }).expect("sem handle");
+                let o = Ops { post: Box::new(|| HandlerInterface::<E, SemaphoreMgmt, PS<SemaphoreMgmt>>::notify(&h)),
+                    try_wait: Box::new(|| WaiterInterface::<E, SemaphoreMgmt, PS<SemaphoreMgmt>>::try_wait(&w).is_ok()),
+                    timed: Box::new(|d| WaiterInterface::<E, SemaphoreMgmt, PS<SemaphoreMgmt>>::timed_wait(&w, d).is_ok()),
+                    empty: Box::new(|| WaiterInterface::<E, SemaphoreMgmt, PS<SemaphoreMgmt>>::empty_buffer(&w).is_ok()) };
+                scenarios("semaphore", &o, 20000, out);
+                drop(o); drop(h); core::mem::forget(w);
+            }
+            Err(e) => { let _ = writeln!(out, "NOTE real trigger semaphore not constructible standalone: {:?}", e); }
+        }
+    }
+    // unix datagram socket
+    {
+        type W = UnixDatagramWaiter<E, PS<()>>; type H = UnixDatagramHandle<E, PS<()>>;
+        let (name, c) = cfg("uds");
+        let _ = unsafe { <W as WaiterInterface<E, (), PS<()>>>::remove(&name, &c) };
+        let mut mgmt: Box<MaybeUninit<()>> = Box::new(MaybeUninit::uninit());
+        match <W as WaiterInterface<E, (), PS<()>>>::create(&name, &c, &mut mgmt) {
+            Ok(w) => {
+                let h = <H as HandlerInterface<E, (), PS<()>>>::open(&name, &c, &()).expect("uds handle");
+                let o = Ops { post: Box::new(|| HandlerInterface::<E, (), PS<()>>::notify(&h)),
+                    try_wait: Box::new(|| WaiterInterface::<E, (), PS<()>>::try_wait(&w).is_ok()),
+                    timed: Box::new(|d| { let t = Instant::now(); let r = WaiterInterface::<E, (), PS<()>>::timed_wait(&w, d).is_ok(); let _ = t; r }),
+                    empty: Box::new(|| WaiterInterface::<E, (), PS<()>>::empty_buffer(&w).is_ok()) };
+                scenarios("unix_datagram_socket", &o, 20000, out);
+                drop(o); drop(h); drop(w);
+                let _ = unsafe { <W as WaiterInterface<E, (), PS<()>>>::remove(&name, &c) };
+            }
+            Err(e) => { let _ = writeln!(out, "NOTE real trigger unix_datagram_socket not constructible standalone: {:?}", e); }
+        }
+    }
+    // socket pair
+    {
+        type W = SocketPairWaiter<E, PS<SocketPairMgmt>>; type H = SocketPairHandle<E, PS<SocketPairMgmt>>;
+        let (name, c) = cfg("sp");
+        let mut mgmt: Box<MaybeUninit<SocketPairMgmt>> = Box::new(MaybeUninit::uninit());
+        match <W as WaiterInterface<E, SocketPairMgmt, PS<SocketPairMgmt>>>::create(&name, &c, &mut mgmt) {
+            Ok(w) => {
+                let h = <H as HandlerInterface<E, SocketPairMgmt, PS<SocketPairMgmt>>>::open(&name, &c, unsafe { mgmt.assume_init_ref() }).expect("sp handle");
+                let o = Ops { post: Box::new(|| HandlerInterface::<E, SocketPairMgmt, PS<SocketPairMgmt>>::notify(&h)),
+                    try_wait: Box::new(|| WaiterInterface::<E, SocketPairMgmt, PS<SocketPairMgmt>>::try_wait(&w).is_ok()),
+                    timed: Box::new(|d| WaiterInterface::<E, SocketPairMgmt, PS<SocketPairMgmt>>::timed_wait(&w, d).is_ok()),
+                    empty: Box::new(|| WaiterInterface::<E, SocketPairMgmt, PS<SocketPairMgmt>>::empty_buffer(&w).is_ok()) };
+                scenarios("socket_pair", &o, 20000, out);
+                drop(o); drop(h); core::mem::forget(w);
+            }
+            Err(e) => { let _ = writeln!(out, "NOTE real trigger socket_pair not constructible standalone: {:?}", e); }
+        }
+    }
+}
+
+// ------------------------------------------------------------------------------------------
+// the lost wake-up on the REAL semaphore trigger (libc sem_post / sem_timedwait) inside the real
+// event::common: the real SemaphoreHandle / SemaphoreWaiter are wrapped (pure delegation) so that
+// every trigger operation is preceded by a scheduling point and a real blocking wait does not
+// stall the baton scheduler (sched::real_block).
+// ------------------------------------------------------------------------------------------
+use core::ptr::NonNull;
+use iceoryx2_bb_elementary_traits::testing::abandonable::Abandonable;
+use iceoryx2_bb_lock_free::mpmc::counting_bit_set::RelocatableCountingBitSet;
+use iceoryx2_cal::event::common::EventImpl;
+use iceoryx2_cal::event::event_state::EventActivation;
+use iceoryx2_cal::event::{Event, EventId, Listener, ListenerBuilder, ListenerCreateError, ListenerWaitError, NamedConceptBuilder, Notifier, NotifierBuilder, NotifierOpenError};
+use iceoryx2_cal::named_concept::{NamedConceptPathHintRemoveError, NamedConceptRemoveError};
+use iceoryx2_pal_concurrency_sync::verif_gate::Kind;
+use std::sync::{Arc, Mutex};
+
+type CE = RelocatableCountingBitSet;
+type CS = dynamic_storage::process_local::Storage<State<CE, SemaphoreMgmt>>;
+static PAUSE: core::sync::atomic::AtomicU64 = core::sync::atomic::AtomicU64::new(0);
+#[track_caller]
+fn pause() { sched::gated_op(&PAUSE as *const _ as usize, Kind::Load, core::sync::atomic::Ordering::SeqCst, || ((), 0, 0, true)) }
+
+#[derive(Debug)] pub struct WrapW(SemaphoreWaiter<CE, CS>);
+#[derive(Debug)] pub struct WrapH(SemaphoreHandle<CE, CS>);
+impl Abandonable for WrapW { unsafe fn abandon_in_place(_this: NonNull<Self>) {} }
+impl Abandonable for WrapH { unsafe fn abandon_in_place(_this: NonNull<Self>) {} }
+impl WaiterInterface<CE, SemaphoreMgmt, CS> for WrapW {
+    const IS_FILE_DESCRIPTOR_BASED: bool = false;
+    unsafe fn remove(name: &FileName, config: &TrigCfg) -> Result<bool, NamedConceptRemoveError> { unsafe { <SemaphoreWaiter<CE, CS> as WaiterInterface<CE, SemaphoreMgmt, CS>>::remove(name, config) } }
+    fn remove_path_hint(value: &Path) -> Result<(), NamedConceptPathHintRemoveError> { <SemaphoreWaiter<CE, CS> as WaiterInterface<CE, SemaphoreMgmt, CS>>::remove_path_hint(value) }
+    fn create(name: &FileName, config: &TrigCfg, mgmt: &mut MaybeUninit<SemaphoreMgmt>) -> Result<Self, ListenerCreateError> {
+        Ok(WrapW(<SemaphoreWaiter<CE, CS> as WaiterInterface<CE, SemaphoreMgmt, CS>>::create(name, config, mgmt)?))
+    }
+    fn try_wait(&self) -> Result<(), ListenerWaitError> { pause(); WaiterInterface::<CE, SemaphoreMgmt, CS>::try_wait(&self.0) }
+    fn timed_wait(&self, timeout: Duration) -> Result<(), ListenerWaitError> { pause(); sched::real_block(|| WaiterInterface::<CE, SemaphoreMgmt, CS>::timed_wait(&self.0, timeout)) }
+    fn blocking_wait(&self) -> Result<(), ListenerWaitError> { pause(); sched::real_block(|| WaiterInterface::<CE, SemaphoreMgmt, CS>::blocking_wait(&self.0)) }
+    fn empty_buffer(&self) -> Result<(), ListenerWaitError> { pause(); WaiterInterface::<CE, SemaphoreMgmt, CS>::empty_buffer(&self.0) }
+}
+impl HandlerInterface<CE, SemaphoreMgmt, CS> for WrapH {
+    fn open(name: &FileName, config: &TrigCfg, mgmt: &SemaphoreMgmt) -> Result<Self, NotifierOpenError> {
+        Ok(WrapH(<SemaphoreHandle<CE, CS> as HandlerInterface<CE, SemaphoreMgmt, CS>>::open(name, config, mgmt)?))
+    }
+    fn notify(&self) -> Result<(), NotifierNotifyError> { pause(); HandlerInterface::<CE, SemaphoreMgmt, CS>::notify(&self.0) }
+}
+type SemEvent = EventImpl<CE, SemaphoreMgmt, CS, WrapH, WrapW>;
+
+/// one run: listener [try_wait; timed_wait(T)], ONE notifier [notify 0; notify 0] under `schedule`
+/// (then non-preempting).  Returns (events of the timed wait, ms the timed wait took, ms between the
+/// start of the timed wait and the return of the second notify, both notifies Ok).
+fn sem_run(tag: &str, t_ms: u64, schedule: Vec<usize>) -> (u64, u128, i128, bool, bool) {
+    let name = FileName::new(format!("c05sem_{}_{}", tag, std::process::id()).as_bytes()).unwrap();
+    let listener = Arc::new(<SemEvent as Event<CE>>::ListenerBuilder::new(&name).event_id_max(EventId::new(0)).create().expect("listener"));
+    let notifier = Arc::new(<SemEvent as Event<CE>>::NotifierBuilder::new(&name).open().expect("notifier"));
+    let start = Instant::now();
+    let res: Arc<Mutex<(u64, u128, u128, u128, bool)>> = Arc::new(Mutex::new((0, 0, 0, 0, true)));
+    let (l, r1) = (listener.clone(), res.clone());
+    let (nf, r2) = (notifier.clone(), res.clone());
+    let bodies: Vec<Box<dyn FnOnce() + Send>> = vec![
+        Box::new(move || {
+            let _ = l.try_wait(|_e: EventActivation| {});
+            let t0 = start.elapsed().as_millis();
+            let n = l.timed_wait(|_e: EventActivation| {}, Duration::from_millis(t_ms)).unwrap_or(99);
+            let t1 = start.elapsed().as_millis();
+            let mut g = r1.lock().unwrap(); g.0 = n; g.1 = t0; g.2 = t1;
+        }),
+        Box::new(move || {
+            let a = nf.notify(EventId::new(0)).is_ok();
+            let b = nf.notify(EventId::new(0)).is_ok();
+            let mut g = r2.lock().unwrap(); g.3 = start.elapsed().as_millis(); g.4 = a && b;
+        }),
+    ];
+    let mut chooser = |step: usize, enabled: &[usize], last: Option<usize>| -> sched::Choice {
+        if step < schedule.len() && enabled.contains(&schedule[step]) { sched::Choice::Run(schedule[step]) }
+        else { match last { Some(l) if enabled.contains(&l) => sched::Choice::Run(l), _ => sched::Choice::Run(enabled[0]) } }
+    };
+    let ex = sched::run_threads_rb(bodies, Duration::from_millis(t_ms * 3 + 5000), &mut chooser);
+    if std::env::var("VERIF_SEM_TRACE").is_ok() { let mut e = std::io::stderr(); sched::print_exec(&ex, &mut e); }
+    let g = res.lock().unwrap();
+    (g.0, g.2 - g.1, g.3 as i128 - g.1 as i128, g.4, ex.deadlock)
+}
+
+pub fn sem_mode(t_ms: u64, out: &mut impl Write) {
+    // control: the listener is inside its timed wait, then the notifier runs undisturbed: immediate wake-up
+    let (n, took, nret, ok, dl) = sem_run("ctl", t_ms, vec![0; 14]);
+    let _ = writeln!(out, "SEM control    timed_wait({}ms) returned {} event(s) after {} ms; second notify returned Ok={} {} ms after the wait began; deadlock={}", t_ms, n, took, ok, nret, dl);
+    let ctl_ok = ok && !dl && n >= 1 && (took as u64) < t_ms / 2;
+    // the lost wake-up schedule (model witness with the trigger operations as steps):
+    // (every semaphore operation = scheduling point + the two gated accesses of bb-posix's handle (is_initialized load, cell) + the libc call)
+    // L: CAS N->I fails, try_wait (3), store Idle | N: as_ptr, fetch_add, CAS I->P ok, sem_post (3) | L: empty_buffer (5: eats the token), as_ptr, swap (delivers),
+    // returns; timed_wait: CAS N->I fails (Pending), enters sem_timedwait (3) | N: CAS P->N ok, returns; notify#2: as_ptr, fetch_add, CAS I->P fails (Notified), returns Ok without post
+    let (n, took, nret, ok, dl) = sem_run("adv", t_ms, [vec![0; 5], vec![1; 6], vec![0; 11], vec![1; 4]].concat());
+    let _ = writeln!(out, "SEM adversarial timed_wait({}ms) returned {} event(s) after {} ms; second notify returned Ok={} {} ms after the wait began; deadlock={}", t_ms, n, took, ok, nret, dl);
+    let lost = ok && !dl && (took as u64) >= t_ms * 8 / 10 && nret < (t_ms as i128) / 2;
+    let _ = writeln!(out, "SEMVERDICT control_immediate_wakeup={} lost_wakeup_on_real_semaphore={}", ctl_ok, lost);
+}
